@@ -43,6 +43,8 @@ type JobResult struct {
 const maxSamplesKept = 24
 const maxViolationsKept = 400
 
+const maxUndecidedPaths = 48
+
 func explore(ld *loaded, j *Job, workers int, seed int64, verbose bool) *JobResult {
 	eng := newEngine(ld, j)
 	sp := ld.pkgs[pkgPathOf(j.Pkg)]
@@ -88,6 +90,7 @@ func explore(ld *loaded, j *Job, workers int, seed int64, verbose bool) *JobResu
 		}
 	}()
 	defer close(stopWatch)
+	undecided := 0
 	var wg sync.WaitGroup
 	for w := 0; w < workers; w++ {
 		wg.Add(1)
@@ -159,6 +162,16 @@ func explore(ld *loaded, j *Job, workers int, seed int64, verbose bool) *JobResu
 					}
 				}
 				work = append(work, pr.pending...)
+				if strings.HasPrefix(pr.detail, "solver could not decide") {
+					undecided++
+					if undecided >= maxUndecidedPaths && len(work) > 0 {
+						// the solver gives up on this job's queries systematically: stop here, the job is reported as
+						// not decided (capped) instead of spending minutes per remaining path
+						res.Capped = true
+						res.Details["capped: solver undecided on too many paths, exploration stopped"]++
+						work = nil
+					}
+				}
 				if verbose {
 					fmt.Printf("path %d: %s %s decisions=%d steps=%d\n", res.Paths, pr.status, pr.detail, len(pr.decisions), pr.steps)
 				}
